@@ -225,9 +225,11 @@ func runWorker(prop *Property, cfg Config) (res WorkerResult) {
 			}
 		}
 		res.RuleCounts[ru.ID] = n
-		if n < ru.Floor {
+		// Floor is the instance count confirmed by reading; the alarm threshold is half of it (rounded up), so that a refactoring
+		// which merges duplicated sites into a helper does not trip it, while a rule that loses sight of its code (0 or a stray instance) does.
+		if n < (ru.Floor+1)/2 {
 			rep.add("-", "instances", "-", "rule-vacuous",
-				fmt.Sprintf("rule found %d instances, fewer than the floor of %d confirmed by reading: the rule no longer sees the code it is about", n, ru.Floor), false)
+				fmt.Sprintf("rule found %d instances, fewer than half of the %d confirmed by reading: the rule no longer sees the code it is about", n, ru.Floor), false)
 		}
 		res.Obligations = append(res.Obligations, rep.obs...)
 	}
